@@ -262,6 +262,40 @@ func buildCatalogue(seed int64, rec *hook.Recorder, want int, withSpec bool) map
 		add(schemaCall("os-branches", []byte(nb), []byte("3"), "oneshot"))
 		add(schemaCall("sv-recycle-branches", []byte(nb), []byte("3"), "recycle"))
 	}
+	// calls with ONE of the Swagger-specific options, or with schemata results skipped, at root paths ending like schema keywords
+	optInsts := []string{`{"items":"dummy"}`, `{"type":"array"}`, `{"type":"array","items":{"type":"string"}}`, `{"items":{},"type":"string"}`, `{"a":1}`}
+	optSchemas := []string{`{"type":"object"}`, `{"type":"object","properties":{"items":{},"type":{"type":"string"}}}`, `{"anyOf":[{"required":["zz"],"minProperties":9},{"properties":{"type":{"enum":["x"]}},"required":["type","q"]}]}`}
+	roots := []string{"", "definitions.thing.properties", "x.default", "a.example"}
+	for i := 0; i < 12; i++ {
+		st, it, root := []byte(optSchemas[i%len(optSchemas)]), []byte(optInsts[i%len(optInsts)]), roots[i%len(roots)]
+		for _, oc := range []struct {
+			class string
+			opts  []validate.Option
+		}{
+			{"sv-recycle-typecheck", []validate.Option{validate.EnableObjectArrayTypeCheck(true), validate.WithRecycleValidators(true)}},
+			{"sv-recycle-swagger", []validate.Option{validate.SwaggerSchema(true), validate.WithRecycleValidators(true)}},
+			{"sv-recycle-itemscheck", []validate.Option{validate.EnableArrayMustHaveItemsCheck(true), validate.WithRecycleValidators(true)}},
+			{"os-skipschemata", []validate.Option{validate.WithSkipSchemataResult(true)}},
+		} {
+			oc := oc
+			c := &call{Class: oc.class, Desc: fmt.Sprintf("%s root=%q %s <- %s", oc.class, root, st, it)}
+			c.run = func(reg strfmt.Registry) string {
+				var s spec.Schema
+				_ = json.Unmarshal(st, &s)
+				data, _ := decodeFloat(it)
+				if oc.class == "os-skipschemata" {
+					err := validate.AgainstSchema(&s, data, reg, oc.opts...)
+					if err == nil {
+						return outcomeOf(nil, nil)
+					}
+					return "invalid E" + strings.Join(compositeMessages(err), "|") + " W"
+				}
+				res := validate.NewSchemaValidator(&s, nil, root, reg, oc.opts...).Validate(data)
+				return outcomeOf(res.Errors, res.Warnings)
+			}
+			add(c)
+		}
+	}
 	// early exits: nil data, failed json.Number conversion
 	nilSchemas := []string{`{"type":"object","properties":{"a":{"type":"string"}}}`, `{"type":["null","string"],"enum":[null,"a"]}`, `{"allOf":[{"type":"string"}],"enum":["a"]}`, `{"type":"string","enum":["a","b"]}`}
 	for i := 0; i < want; i++ {
@@ -354,6 +388,7 @@ func runHistory(args []string) error {
 	withSpec := fs.Bool("spec", true, "include whole-specification validations")
 	panics := fs.Bool("panics", false, "seeded histories start with a panicking call (C11)")
 	full := fs.Bool("full", false, "the build logs borrows too (validatedebug)")
+	poison := fs.Bool("poison", true, "scribble over redeemed objects (off: objects keep their natural stale content)")
 	threads := fs.Int("threads", 1, "GOMAXPROCS")
 	fs.Parse(args)
 	runtime.GOMAXPROCS(*threads)
@@ -448,7 +483,11 @@ func runHistory(args []string) error {
 		validate.VerifResetPools()
 		hook.Forget()
 		rec.Drain()
-		rec.SetMode("poison")
+		if *poison {
+			rec.SetMode("poison")
+		} else {
+			rec.SetMode("plain")
+		}
 		rec.Recording(true)
 		rec.Mark(hook.PoolEvent{Kind: "reset", G: 1})
 		prevClass := "-"
